@@ -61,6 +61,10 @@ def run(R):
         else:
             R.viol("C09.advertise", "replicate-cmd-missing", "no Cmd::Replicate{keys} literal in try_interval_replication", tir, tir.lines[0])
         R.inst("C09.advertise", "K6 flows-to", "Cmd::Replicate.keys = all values of record_addresses_ref(), unfiltered", len(ops), ok, {"calls_on_chain": names[:12]})
+        # every selected target is sent the list
+        R.every_iteration("C09.advertise.every", tir, lambda names, fields: any(n.endswith("get_replicate_candidates") for n in names),
+                          CallSink("ant_networking::driver::SwarmDriver::queue_network_swarm_cmd", "*SwarmDriver::queue_network_swarm_cmd"),
+                          "every replication target is sent the request", "the replication targets")
         # holder is self, targets are the replicate candidates
         ta = Taint(tir, through="all")
         cand = ta.closure(call_results(["ant_networking::cmd::<impl ant_networking::driver::SwarmDriver>::get_replicate_candidates"])(tir))
